@@ -60,19 +60,85 @@ Proof.
   destruct (running G0); [rewrite err_step by auto|]; reflexivity.
 Qed.
 
-Definition op_abort_safe (o : op) (g : gc) : bool :=
-  match o with
-  | ORealloc p q _ _ =>
-      (q =? p) || match lookup p (items g) with Some it => negb (hasflag (iflags it) ROOT_BIT) | None => true end
-  | ODealloc p =>
-      match lookup p (items g) with
-      | Some it => match ifin it with Some f => negb ((fkind f =? 2) || (fkind f =? 3)) | None => true end
-      | None => true
-      end
-  | _ => true
-  end.
-Fixpoint hist_abort_safe (h : list op) (g : gc) : bool :=
-  match h with [] => true | o :: r => op_abort_safe o g && hist_abort_safe r (apply_op o g) end.
+(* no usual item ever carries the ROOT bit (true since FINALIZE no longer shares it) *)
+Definition no_root (its : list (Z * item)) : Prop :=
+  forall a it, lookup a its = Some it -> hasflag (iflags it) ROOT_BIT = false.
+
+Lemma no_root_shrink its its' : shrink its its' -> no_root its -> no_root its'.
+Proof.
+  intros S H a it' L. destruct (S a it' L) as (it & L0 & (_ & _ & _ & C4 & _)).
+  rewrite C4. { exact (H a it L0). } intros E. symmetry in E. now apply MARK_not_ROOT in E.
+Qed.
+
+Lemma reg_flags_root flags size f : hasflag (reg_flags flags size f) ROOT_BIT = hasflag flags ROOT_BIT.
+Proof.
+  unfold reg_flags. pose proof LEAF_nonneg. pose proof FINALIZE_nonneg.
+  assert (R1 : hasflag (if AUTO_LEAF_ON_REGISTER && (size <? WORD_SIZE) then setflag flags LEAF_BIT else flags) ROOT_BIT
+               = hasflag flags ROOT_BIT).
+  { destruct (AUTO_LEAF_ON_REGISTER && (size <? WORD_SIZE)); auto. apply hasflag_setflag_other; auto.
+    intros E. symmetry in E. now apply LEAF_not_ROOT in E. }
+  destruct f; auto. rewrite hasflag_setflag_other; auto. intros E. symmetry in E. now apply FINALIZE_not_ROOT in E.
+Qed.
+
+Lemma no_root_register stk p size flags f ws decl g : WF g -> no_root (items g) ->
+  no_root (items (register stk p size flags f ws decl g)).
+Proof.
+  intros W H. unfold register. destruct (p =? 0); auto. destruct (size <=? 0); auto.
+  destruct (negb (hasflag flags ROOT_BIT)) eqn:RF.
+  - destruct (lookup p (items g)) eqn:L; auto.
+    match goal with |- no_root (items (if _ then step _ ?G else ?G)) => assert (H1 : no_root (items G) /\ WF G) end.
+    { split; [|now apply WF_reg_mid]. cbn [items set_membytes set_masks set_items]. intros a it. cbn [lookup].
+      destruct (Z.eqb_spec p a).
+      - intros E. inversion E; subst. cbn [iflags]. rewrite reg_flags_root. now apply negb_true_iff in RF.
+      - apply H. }
+    destruct H1 as [H1 W1]. destruct (running _); auto.
+    eapply no_root_shrink; [apply shrink_step; exact W1 | exact H1].
+  - destruct (negb (flags =? bit ROOT_BIT)); auto. destruct f; auto.
+Qed.
+
+Lemma no_root_update p it it' its : lookup p its = Some it -> no_root its ->
+  hasflag (iflags it') ROOT_BIT = false -> no_root (update p it' its).
+Proof.
+  intros L H H' a v La. destruct (Z.eq_dec a p) as [->|N].
+  - rewrite lookup_update_same in La by (eapply lookup_In_keys; eauto). inversion La; subst. auto.
+  - rewrite lookup_update_other in La by auto. exact (H a v La).
+Qed.
+
+Lemma no_root_apply_op o g : Inv g -> no_root (items g) -> no_root (items (apply_op o g)).
+Proof.
+  intros [W Q] H. unfold apply_op. destruct (err g); auto. destruct o.
+  - destruct (_ && _); auto. unfold gc_alloc. destruct (size =? 0); auto. destruct (ptr =? 0); auto.
+    apply no_root_register; auto. { destruct (fk =? 0); auto. now apply WF_set_nextfid. } destruct (fk =? 0); auto.
+  - destruct (lookup ptr (items g)) as [it|] eqn:L; auto. destruct (_ && _); auto. cbn [items set_items].
+    eapply no_root_update; eauto. cbn [store_item iflags]. apply (H ptr it L).
+  - destruct (lookup ptr (roots g)) as [[? ?]|]; auto. destruct (_ && _); auto.
+  - destruct (lookup ptr (items g)) as [it|] eqn:L; auto. destruct (_ && _); auto. unfold gc_realloc.
+    destruct (newptr =? 0); auto. unfold reregister.
+    destruct ((ptr =? 0) || (newptr =? 0) || (newsize <=? 0)); auto.
+    destruct (newptr =? ptr).
+    + rewrite L.
+      assert (U : no_root (update ptr (resize_item newsize it) (items g)))
+        by (eapply no_root_update; eauto; cbn [resize_item iflags]; apply (H ptr it L)).
+      destruct (isize it <? newsize).
+      * match goal with |- no_root (items (if _ then step _ ?G else ?G)) => assert (IG : Inv G) end.
+        { apply Inv_resize_mid; [split; auto | auto |]. cbn [membytes set_items]. destruct W as [A B CC]. rewrite B, wadd_mod. f_equal. lia. }
+        destruct (running _); auto. eapply no_root_shrink; [apply shrink_step; apply IG | exact U].
+      * destruct (newsize <? isize it); auto.
+    + rewrite L. apply no_root_register.
+      * apply WF_set_finq. now apply WF_remove_item.
+      * cbn [items set_finq set_membytes set_items]. eapply no_root_shrink; [apply shrink_remove | exact H].
+  - destruct (lookup ptr (items g)); auto. destruct (dealloc_ok _); auto. unfold gc_dealloc.
+    assert (no_root (items (unregister run_fin true ptr g)))
+      by (eapply no_root_shrink; [apply shrink_unregister, shrink_call_fin | exact H]).
+    destruct (ptr =? 0); auto.
+  - destruct (lookup ptr (items g)); auto. eapply no_root_shrink; [apply shrink_unregister, shrink_call_fin | exact H].
+  - destruct (_ && _); auto. now apply no_root_register.
+  - eapply no_root_shrink; [now apply shrink_collect | auto].
+  - eapply no_root_shrink; [now apply shrink_step | auto].
+  - destruct (_ && _); auto.
+  - auto.
+  - auto.
+Qed.
 
 Definition benign (e : option error) : Prop := e = None \/ e = Some ErrPrecond.
 
@@ -88,9 +154,9 @@ Qed.
 Lemma benign_set_precond g : err g = None -> benign (err (set_err ErrPrecond g)).
 Proof. intros E. right. unfold set_err. cbn. now rewrite E. Qed.
 
-Lemma benign_apply_op o g : Inv g -> err g = None -> op_abort_safe o g = true -> benign (err (apply_op o g)).
+Lemma benign_apply_op o g : Inv g -> no_root (items g) -> err g = None -> benign (err (apply_op o g)).
 Proof.
-  intros I EG SAFE. unfold apply_op. rewrite EG. destruct o; cbn [op_abort_safe] in SAFE.
+  intros I NR EG. unfold apply_op. rewrite EG. destruct o.
   - destruct (_ && _) eqn:PRE; [|now apply benign_set_precond].
     repeat (apply andb_prop in PRE; destruct PRE as [PRE ?]).
     match goal with H : fresh ptr g = true |- _ => unfold fresh in H; repeat (apply andb_prop in H; destruct H as [H ?]) end.
@@ -118,7 +184,7 @@ Proof.
         { apply Inv_resize_mid; auto. cbn [membytes set_items]. destruct I as [[A B CC] Q]. rewrite B, wadd_mod. f_equal. lia. }
         destruct (running G0); [rewrite err_step by auto|]; exact EG.
       * destruct (newsize <? isize it); exact EG.
-    + rewrite L. left. cbn [orb] in SAFE, FRq. apply negb_true_iff in SAFE.
+    + rewrite L. left. cbn [orb] in FRq. pose proof (NR ptr it L) as SAFE.
       unfold fresh in FRq. repeat (apply andb_prop in FRq; destruct FRq as [FRq ?]).
       rewrite err_register; auto.
       * destruct I as [W Q]. split.
@@ -131,6 +197,7 @@ Proof.
       * cbn [items set_finq set_membytes set_items]. rewrite lookup_remove_other by lia.
         destruct (lookup newptr (items g)); auto; discriminate.
   - destruct (lookup ptr (items g)) as [it|] eqn:L; [|now apply benign_set_precond].
+    destruct (dealloc_ok it) eqn:SAFE; [|now apply benign_set_precond]. unfold dealloc_ok in SAFE.
     left. unfold gc_dealloc.
     assert (E : err (unregister run_fin true ptr g) = None).
     { unfold unregister. destruct (ptr =? 0); auto. rewrite L.
@@ -153,22 +220,15 @@ Proof.
   - now left.
 Qed.
 
-(* strongest true restriction of no_abort: histories that never move a block whose flags carry
-   the ROOT (= FINALIZE) bit and never explicitly deallocate a block whose finalizer releases the
-   block itself never trip an assert of the collector *)
-Lemma no_abort_partial h : hist_abort_safe h gc_init = true ->
-  err (run h gc_init) = None \/ err (run h gc_init) = Some ErrPrecond.
+(* a history that respects the allocator's contract never trips an assert of the collector and
+   never exhausts the model's fuel: the only error it can end in is a violated precondition of
+   the history itself *)
+Lemma no_abort : no_abort_full.
 Proof.
-  assert (G : forall h g, Inv g -> benign (err g) -> hist_abort_safe h g = true -> benign (err (run h g))).
-  { induction h0 as [|o r IH]; intros g I B S; cbn [run fold_left]; auto.
-    cbn [hist_abort_safe] in S. apply andb_prop in S. destruct S as [S1 S2].
-    apply IH; auto. { now apply Inv_apply_op. }
+  assert (G : forall h g, Inv g -> no_root (items g) -> benign (err g) -> benign (err (run h g))).
+  { induction h as [|o r IH]; intros g I NR B; cbn [run fold_left]; auto.
+    apply IH; [now apply Inv_apply_op | now apply no_root_apply_op |].
     destruct B as [B|B]; [now apply benign_apply_op|].
     unfold apply_op. rewrite B. now right. }
-  intros S. apply (G h gc_init); auto. { apply Inv_init. } now left.
+  intros h. apply (G h gc_init); [apply Inv_init | intros a it L; discriminate | now left].
 Qed.
-
-Example abort_safe_nonvacuous :
-  hist_abort_safe [OAlloc 4096 32 false false 1 0 []; ORealloc 4096 4096 64 []; OAlloc 8192 16 false false 0 0 [];
-                   ORealloc 8192 12288 64 []; OCollect []] gc_init = true.
-Proof. vm_compute. reflexivity. Qed.
